@@ -56,7 +56,7 @@ def plan(pid, tier, seed):
     if pid == "C03":
         return {"jobs": world_jobs(["mixed", "malformed", "batch", "containers"], tier, seed, 100, 40000), "trusted_base": WORLD_TRUST}
     if pid == "C10":
-        return {"jobs": world_jobs(["mixed", "containers"], tier, seed, 150, 40000), "trusted_base": WORLD_TRUST,
+        return {"jobs": world_jobs(["mixed", "containers"], tier, seed, 400, 40000), "trusted_base": WORLD_TRUST,
                 "assumptions": ["bundle representations are exercised through tuples in several field orders, dynamic EntityBuilder bundles, "
                                 "EntityBuilderClone results, taken entities and command-buffer recordings; derived Bundle structs only via tuples"]}
     if pid == "C09":
